@@ -34,8 +34,8 @@ D = os.path.join(SPEC, "config")
 ACTIONS = ["P_FindSkip", "P_FindHit", "P_FindEof", "P_Eof", "P_Blank", "P_Open", "P_Close", "P_NoValue", "P_Value",
            "P_Include", "P_TrailBlank", "P_TrailJunk", "P_TrailEof", "T1", "T2", "T3", "T4", "T5"]
 DEVS = ["ParseSizePanic", "TrailingIgnored", "HostQuoteLax"]
-BUGS_QUICK = ["ReverseRoutes", "LineMinus1", "CollapseWhitespace"]
-BUGS = ["ReverseRoutes", "FirstPatternOnly", "Threads0Accepted", "LineMinus1", "DefaultLogInfo", "ErrFileMain", "LastTargetOnly", "CollapseWhitespace"]
+BUGS_QUICK = ["LineMinus1", "CollapseWhitespace", "LoneQuoteSlice"]
+BUGS = ["ReverseRoutes", "FirstPatternOnly", "Threads0Accepted", "LineMinus1", "DefaultLogInfo", "ErrFileMain", "LastTargetOnly", "CollapseWhitespace", "LoneQuoteSlice"]
 TO = 3000
 
 
